@@ -743,6 +743,8 @@ class Engine:
                 return v
             if isinstance(v, bool):
                 return 1 if v else 0
+            if is_sym(v) and z3.is_bool(v):
+                return z3.If(v, z3.BitVecVal(1, 64), z3.BitVecVal(0, 64))
             if ty.strip() in ('usize', 'isize', 'u64', 'i64'):
                 return v
             if is_sym(v):
